@@ -162,7 +162,9 @@ fn run(args: &[&str]) -> String {
     let link = match Link::new(Stream::Raw(tcp)).start_ssl(false) { Ok(l) => l, Err(_) => return "tls-failed".to_string() };
     let mut server = Server { tls: srv.join().unwrap(), seen: vec![], eof: false };
     if server.tls.is_none() { return "tls-failed".to_string(); }
-    let x = x224::Client::verif_new(tpkt::Client::new(link), x224::Protocols::ProtocolSSL);
+    // both TLS-based protocols are exercised: an odd seed runs the session as NLA (Hybrid), an even one as plain TLS
+    let proto = if seed % 2 == 1 { x224::Protocols::ProtocolHybrid } else { x224::Protocols::ProtocolSSL };
+    let x = x224::Client::verif_new(tpkt::Client::new(link), proto);
     let m = mcs::Client::verif_connected(x, 1004, 1003);
     let g = global::Client::new(1004, 1003, 800, 600, KeyboardLayout::from("us"), "rdpv");
     let mut client = RdpClient::verif_new(m, g);
